@@ -7,7 +7,9 @@ mod parse;
 mod gen_enums;
 mod tree;
 mod treeparse;
+mod polys;
 mod c01;
+mod c03;
 mod c09;
 mod c10;
 mod c11;
@@ -44,6 +46,7 @@ fn real_main() {
             let toks: Vec<&str> = req.split(' ').collect();
             let ok = match id {
                 "C01" | "C02" => c01::replay(&toks, &mut out, req),
+                "C03" => c03::replay(&toks, &mut out),
                 "C09" => c09::replay(&toks, &mut out),
                 "C10" => c10::replay(&toks, &mut out),
                 "C11" => c11::replay(&toks, &mut out),
@@ -59,6 +62,7 @@ fn real_main() {
         match id {
             "C01" => c01::generate(&mut rng, thorough, &mut out, false),
             "C02" => c01::generate(&mut rng, thorough, &mut out, true),
+            "C03" => c03::generate(&mut rng, thorough, &mut out),
             "C09" => c09::generate(&mut rng, thorough, &mut out),
             "C10" => c10::generate(&mut rng, thorough, &mut out),
             "C11" => c11::generate(&mut rng, thorough, &mut out),
